@@ -323,7 +323,23 @@ _reg("get_bit", 2, _b(lambda x, n: x.get_bit(n)), _getbit_ref,
 
 _TYPES = {"bytes": bytes, "bytearray": bytearray, "memoryview": memoryview}
 _reg("to_bytes", 1, lambda K, o: o[0].to_bytes(o[1], o[2]), _tobytes_ref, expr="K(a).to_bytes(b, c)")
-_reg("from_bytes", 0, lambda K, o: K.from_bytes(_TYPES[o[2]](o[0]), o[1]), _frombytes_ref, static=True,
+class CallerBufferChanged(Exception):
+    pass
+
+
+def _from_bytes_twice(K, o):
+    """the conversion is made twice from ONE carrier object: the caller's buffer reads the same afterwards and the second result equals the first"""
+    buf = _TYPES[o[2]](o[0])
+    r1 = K.from_bytes(buf, o[1])
+    if bytes(buf) != bytes(o[0]):
+        raise CallerBufferChanged("from_bytes changed its %s argument from %s to %s" % (o[2], bytes(o[0]).hex()[:40], bytes(buf).hex()[:40]))
+    r2 = K.from_bytes(buf, o[1])
+    if int(r1) != int(r2):
+        raise CallerBufferChanged("the second from_bytes of the same %s gives another value" % o[2])
+    return r1
+
+
+_reg("from_bytes", 0, _from_bytes_twice, _frombytes_ref, static=True,
      expr="K.from_bytes(a, b)")
 
 _pow2_tag = lambda v: "no-modulus-exponent-gt-256" if v[1] > 256 else ""
